@@ -1,6 +1,6 @@
-\* all histories over mapA (u64 -> u64) and mapB ((u64, u64) -> 24-byte struct), 2 keys x 2 values
+\* all histories over the nested map mapN (u64 -> (u64 -> u64)), 2 x 2 keys x 2 values
 CONSTANT UnitWord = 0
-CONSTANT Active = {"mapA", "mapB"}
+CONSTANT Active = {"mapN"}
 CONSTANT Vals = {1, 2}
 CONSTANT Keys = {1, 2}
 CONSTANT MaxLen = 3
